@@ -27,7 +27,7 @@ CHECKS = {
          "DESIGN.md section 4 C04"),
  "C05": ("model_checking", "exhaustive block-shape and corruption lattices through scan_block, plus exhaustive run-to-completion schedules of the batch decryption tasks under a harness executor (cfg seam)",
          "Every block of a shape lattice is scanned and compared with generation-time ground truth; every single corruption of continuity metadata or field length must be an error with the wallet unchanged; every order (within the deviation bound) in which the batch trial-decryption tasks of scan_cached_blocks can run is executed on the real code and must give the ground-truth wallet state, identical to the inline path.",
-         "Schedules are exhaustive at task granularity (tasks share no memory; flume internals are not interleaved); known findings: panics on wrong-length hash/txid/height fields.",
+         "Schedules are exhaustive at task granularity (tasks share no memory; flume internals are not interleaved).",
          "DESIGN.md section 4 C05"),
  "C06": ("model_checking", "explicit-state BFS over the real SQLite wallet with tree oracles evaluated in every state",
          "In every state of the C01-style state graph (plus subtree-root insertion) every retained checkpoint of every pool is compared with the chain frontier root recorded at generation time, every wallet note's Merkle path is recomputed from the leaf, pools must be checkpointed at the same heights and every scanned anchor-retention boundary must hold a checkpoint (also after more than 100 later checkpoints in the thorough universe).",
